@@ -7,9 +7,10 @@ pub mod c06;
 pub mod c10;
 pub mod c16;
 pub mod c17;
+pub mod c18;
 pub mod c19;
 pub mod c20;
 
 pub fn all() -> Vec<PropDef> {
-    vec![c01::def(), c03::def(), c06::def(), c10::def(), c16::def(), c17::def(), c19::def(), c20::def()]
+    vec![c01::def(), c03::def(), c06::def(), c10::def(), c16::def(), c17::def(), c18::def(), c19::def(), c20::def()]
 }
